@@ -94,6 +94,16 @@ def selection(repo: Repo, chk: Check, rule: str) -> None:
             val = n.value
         if val is not None and isinstance(val, ast.Attribute) and val.attr == "port":
             selects.append((t.cast(ast.stmt, n), val))
+    # the floor object itself captured in the scan (`hit = floor; break ... return hit.port`): the capture is the selection
+    loop_vars = {l.target.id for l in body_nodes(f.node) if isinstance(l, ast.For) and isinstance(l.target, ast.Name)}
+    obj_vars: t.Set[str] = set()
+    for n in body_nodes(f.node):
+        if isinstance(n, ast.Assign) and len(n.targets) == 1 and isinstance(n.targets[0], ast.Name) and isinstance(n.value, ast.Name) and n.value.id in loop_vars:
+            x = n.targets[0].id
+            if any(isinstance(u, ast.Attribute) and u.attr == "port" and isinstance(u.value, ast.Name) and u.value.id == x for u in body_nodes(f.node)):
+                obj_vars.add(x)
+                selects = [(st_, v_) for st_, v_ in selects if not (isinstance(v_.value, ast.Name) and v_.value.id == x)]
+                selects.append((t.cast(ast.stmt, n), ast.copy_location(ast.Attribute(value=n.value, attr="port", ctx=ast.Load()), n)))
     site0 = Site.of(f, construct="selection of the TCP port")
     if not selects:
         chk.ob(rule, site0, False, "no statement selects <floor>.port")
@@ -125,13 +135,13 @@ def selection(repo: Repo, chk: Check, rule: str) -> None:
     for n in body_nodes(f.node):
         if isinstance(n, ast.Return):
             v = n.value
-            ok = v is not None and ((isinstance(v, ast.Attribute) and v.attr == "port") or unparse(v) in var_selects)
+            ok = v is not None and ((isinstance(v, ast.Attribute) and v.attr == "port" and (not isinstance(v.value, ast.Name) or v.value.id in obj_vars or v.value.id in loop_vars)) or unparse(v) in var_selects)
             chk.ob(rule, Site.of(f, n), ok, "returns the selected port" if ok else f"returns {unparse(v)} which is not a selected TCP port")
     falls = [p for p, lab in g.pred[g.ret] if not (g.nodes[p].kind == "stmt" and isinstance(g.nodes[p].ast, ast.Return))]
     chk.ob(rule, Site.of(f, construct="fall through after the loops"), not falls, "absence of a TCP floor raises" if not falls else "the function can fall off its end (returns None) when no TCP floor is present")
     # a variable based selection must not return a default on the no-match path
     for name in var_selects:
-        inits = [n for n in body_nodes(f.node) if isinstance(n, ast.Assign) and unparse(n.targets[0]) == name and not (isinstance(n.value, ast.Attribute) and n.value.attr == "port")]
+        inits = [n for n in body_nodes(f.node) if isinstance(n, (ast.Assign, ast.AnnAssign)) and n.value is not None and unparse(n.targets[0] if isinstance(n, ast.Assign) else n.target) == name and not (isinstance(n.value, ast.Attribute) and n.value.attr == "port") and not any(n is st_ for st_, _ in selects)]
         for i in inits:
             okc, cv = repo.try_fold(i.value, f.mod)
             if not (okc and cv is None):
